@@ -589,8 +589,11 @@ struct EnCfg {
     /// keep only `d` rows: the variance estimate reports `NotEnoughSamples`
     wide: bool,
     tol: f64,
+    /// multiply the second feature by this (0 = leave it): a feature in tiny units (nanosecond
+    /// timestamps, byte counts) whose fitted coefficient is correspondingly minute
+    huge: f64,
 }
-const EN: EnCfg = EnCfg { penalty: 0.1, l1: 0.5, intercept: true, collinear: true, default: false, wide: false, tol: 1e-5 };
+const EN: EnCfg = EnCfg { penalty: 0.1, l1: 0.5, intercept: true, collinear: true, default: false, wide: false, tol: 1e-5, huge: 0.0 };
 
 fn en_params<F: Float, const MT: bool>(c: EnCfg) -> ElasticNetParamsBase<F, MT> {
     if c.default {
@@ -648,7 +651,11 @@ const MT_TASKS: usize = 3;
 
 fn en_data<F: Float>(p: &P, c: EnCfg) -> (Array2<F>, Array2<F>, Array2<F>) {
     let (x, y, q) = mt_data(p, Scale::Wild, c.collinear, MT_TASKS);
-    let (mut x, mut y, q) = (cast2::<F>(&x), cast2::<F>(&y), cast2::<F>(&q));
+    let (mut x, mut y, mut q) = (cast2::<F>(&x), cast2::<F>(&y), cast2::<F>(&q));
+    if c.huge != 0.0 && x.ncols() > 1 {
+        x.column_mut(1).mapv_inplace(|v| v * F::cast(c.huge));
+        q.column_mut(1).mapv_inplace(|v| v * F::cast(c.huge));
+    }
     if c.wide {
         let keep = x.ncols();
         x = x.slice(ndarray::s![..keep, ..]).to_owned();
@@ -814,6 +821,55 @@ fn register_enet(r: &mut Registry) {
         |m, p, f| {
             let (x, _, q) = en_data::<f32>(p, EN);
             fp_enet(m, &x, &q, f)
+        },
+        None,
+    );
+    // a feature in minute units: its coefficient is far below machine epsilon yet decides predictions
+    r.model::<ElasticNet<f64>>(
+        "enet_model_huge_feature",
+        K,
+        &["ElasticNet"],
+        Some((Kind::Claim, false)),
+        |p| {
+            let c = EnCfg { huge: 1e17, collinear: false, ..EN };
+            let (x, y, _) = en_data::<f64>(p, c);
+            en_params::<f64, false>(c).fit(&Dataset::new(x, y.column(0).to_owned())).expect("enet fit")
+        },
+        |m, p, f| {
+            let (x, _, q) = en_data::<f64>(p, EnCfg { huge: 1e17, collinear: false, ..EN });
+            fp_enet(m, &x, &q, f)
+        },
+        None,
+    );
+    r.model::<ElasticNet<f32>>(
+        "enet_model_huge_feature_f32",
+        K,
+        &["ElasticNet"],
+        None,
+        |p| {
+            let c = EnCfg { huge: 1e8, collinear: false, ..EN };
+            let (x, y, _) = en_data::<f32>(p, c);
+            en_params::<f32, false>(c).fit(&Dataset::new(x, y.column(0).to_owned())).expect("enet fit")
+        },
+        |m, p, f| {
+            let (x, _, q) = en_data::<f32>(p, EnCfg { huge: 1e8, collinear: false, ..EN });
+            fp_enet(m, &x, &q, f)
+        },
+        None,
+    );
+    r.model::<MultiTaskElasticNet<f64>>(
+        "enet_mt_model_huge_feature",
+        K,
+        &["MultiTaskElasticNet"],
+        None,
+        |p| {
+            let c = EnCfg { huge: 1e17, collinear: false, ..EN };
+            let (x, y, _) = en_data::<f64>(p, c);
+            en_params::<f64, true>(c).fit(&Dataset::new(x, y)).expect("mt enet fit")
+        },
+        |m, p, f| {
+            let (x, _, q) = en_data::<f64>(p, EnCfg { huge: 1e17, collinear: false, ..EN });
+            fp_mt(m, &x, &q, f)
         },
         None,
     );
